@@ -14,6 +14,22 @@ SILENT = [
     {'id': 'S-json-roundtrip-copy', 'what': 'copy.deepcopy(x) -> '
      'json.loads(json.dumps(x)) in file_builder.py'},
     {'id': 'S-swap-if-else', 'what': 'if c: A else: B -> if not c: B else: A'},
+    {'id': 'S-result-variable', 'what': 'return <expr> -> _rv = <expr>; '
+     'return _rv, in every function'},
+    {'id': 'S-while-true', 'what': 'while C: body -> while True: if not C: '
+     'break; body'},
+    {'id': 'S-named-conditions', 'what': 'if C: -> _c = C; if _c: for every '
+     'compound condition'},
+    {'id': 'S-else-after-exit', 'what': 'if C: <exit>; rest -> if C: <exit> '
+     'else: rest'},
+    {'id': 'S-flatten-else', 'what': 'if C: <exit> else: B -> if C: <exit>; B'},
+    {'id': 'S-demorgan', 'what': 'if A and B -> if not (not A or not B); '
+     'if A or B -> if not (not A and not B)'},
+    {'id': 'S-not-compare', 'what': 'a is not b -> not a is b; a not in b -> '
+     'not a in b; a != b -> not a == b (in conditions)'},
+    {'id': 'S-attr-locals', 'what': 'bind attributes that are only assigned '
+     'in constructors to locals at the top of every method that reads them '
+     'more than once'},
 ]
 
 
@@ -209,3 +225,303 @@ def _t_swap_if_else(tree, fn):
     t.visit(tree)
     ast.fix_missing_locations(tree)
     return t.n
+
+
+class _ResultVar(ast.NodeTransformer):
+    n = 0
+
+    def visit_Return(self, node):
+        if node.value is None or isinstance(node.value,
+                                            (ast.Name, ast.Constant)):
+            return node
+        self.n += 1
+        nm = '_rv%d' % self.n
+        return [ast.Assign(targets=[ast.Name(id=nm, ctx=ast.Store())],
+                           value=node.value, lineno=node.lineno),
+                ast.Return(value=ast.Name(id=nm, ctx=ast.Load()))]
+
+    def visit_Lambda(self, node):
+        return node
+
+
+def _t_result_variable(tree, fn):
+    t = _ResultVar()
+    t.visit(tree)
+    ast.fix_missing_locations(tree)
+    return t.n
+
+
+class _WhileTrue(ast.NodeTransformer):
+    n = 0
+
+    def visit_While(self, node):
+        self.generic_visit(node)
+        if node.orelse or (isinstance(node.test, ast.Constant) and
+                           node.test.value is True):
+            return node
+        self.n += 1
+        brk = ast.If(test=ast.UnaryOp(op=ast.Not(), operand=node.test),
+                     body=[ast.Break()], orelse=[])
+        return ast.While(test=ast.Constant(value=True),
+                         body=[brk] + node.body, orelse=[])
+
+
+def _t_while_true(tree, fn):
+    t = _WhileTrue()
+    t.visit(tree)
+    ast.fix_missing_locations(tree)
+    return t.n
+
+
+def _named_conditions(stmts, counter):
+    out = []
+    for st in stmts:
+        for fld in ('body', 'orelse', 'finalbody'):
+            if isinstance(getattr(st, fld, None), list):
+                setattr(st, fld, _named_conditions(getattr(st, fld), counter))
+        for h in getattr(st, 'handlers', []) or []:
+            h.body = _named_conditions(h.body, counter)
+        if isinstance(st, ast.If) and isinstance(
+                st.test, (ast.Compare, ast.BoolOp, ast.Call, ast.UnaryOp)):
+            counter[0] += 1
+            nm = '_c%d' % counter[0]
+            out.append(ast.Assign(
+                targets=[ast.Name(id=nm, ctx=ast.Store())], value=st.test,
+                lineno=st.lineno))
+            st.test = ast.Name(id=nm, ctx=ast.Load())
+        out.append(st)
+    return out
+
+
+def _t_named_conditions(tree, fn):
+    counter = [0]
+    for f in ast.walk(tree):
+        if isinstance(f, ast.FunctionDef):
+            f.body = _named_conditions(f.body, counter)
+    ast.fix_missing_locations(tree)
+    return counter[0]
+
+
+def _else_after_exit(stmts, counter):
+    for st in stmts:
+        for fld in ('body', 'orelse', 'finalbody'):
+            if isinstance(getattr(st, fld, None), list):
+                setattr(st, fld, _else_after_exit(getattr(st, fld), counter))
+        for h in getattr(st, 'handlers', []) or []:
+            h.body = _else_after_exit(h.body, counter)
+    for i, st in enumerate(stmts):
+        if isinstance(st, ast.If) and not st.orelse and st.body and \
+                isinstance(st.body[-1], (ast.Return, ast.Raise)) and \
+                i + 1 < len(stmts):
+            counter[0] += 1
+            st.orelse = stmts[i + 1:]
+            return stmts[:i + 1]
+    return stmts
+
+
+def _t_else_after_exit(tree, fn):
+    counter = [0]
+    for f in ast.walk(tree):
+        if isinstance(f, ast.FunctionDef):
+            f.body = _else_after_exit(f.body, counter)
+    ast.fix_missing_locations(tree)
+    return counter[0]
+
+
+def _flatten_else(stmts, counter):
+    out = []
+    for st in stmts:
+        for fld in ('body', 'orelse', 'finalbody'):
+            if isinstance(getattr(st, fld, None), list):
+                setattr(st, fld, _flatten_else(getattr(st, fld), counter))
+        for h in getattr(st, 'handlers', []) or []:
+            h.body = _flatten_else(h.body, counter)
+        if isinstance(st, ast.If) and st.orelse and st.body and isinstance(
+                st.body[-1], (ast.Return, ast.Raise)) and not (
+                    len(st.orelse) == 1 and isinstance(st.orelse[0], ast.If)
+                    and False):
+            counter[0] += 1
+            rest = st.orelse
+            st.orelse = []
+            out.append(st)
+            out.extend(rest)
+        else:
+            out.append(st)
+    return out
+
+
+def _t_flatten_else(tree, fn):
+    counter = [0]
+    for f in ast.walk(tree):
+        if isinstance(f, ast.FunctionDef):
+            f.body = _flatten_else(f.body, counter)
+    ast.fix_missing_locations(tree)
+    return counter[0]
+
+
+class _DeMorgan(ast.NodeTransformer):
+    n = 0
+
+    def visit_If(self, node):
+        self.generic_visit(node)
+        t = node.test
+        if isinstance(t, ast.BoolOp) and not any(
+                isinstance(x, ast.NamedExpr) for x in ast.walk(t)):
+            self.n += 1
+            other = ast.Or() if isinstance(t.op, ast.And) else ast.And()
+            node.test = ast.UnaryOp(op=ast.Not(), operand=ast.BoolOp(
+                op=other, values=[ast.UnaryOp(op=ast.Not(), operand=v)
+                                  for v in t.values]))
+        return node
+
+
+def _t_demorgan(tree, fn):
+    t = _DeMorgan()
+    t.visit(tree)
+    ast.fix_missing_locations(tree)
+    return t.n
+
+
+class _NotCompare(ast.NodeTransformer):
+    n = 0
+    MAP = {ast.IsNot: ast.Is, ast.NotIn: ast.In, ast.NotEq: ast.Eq}
+
+    def __init__(self):
+        self.in_test = 0
+
+    def visit_If(self, node):
+        self.in_test += 1
+        node.test = self.visit(node.test)
+        self.in_test -= 1
+        node.body = [self.visit(b) for b in node.body]
+        node.orelse = [self.visit(b) for b in node.orelse]
+        return node
+
+    def visit_Compare(self, node):
+        self.generic_visit(node)
+        if self.in_test and len(node.ops) == 1 and type(
+                node.ops[0]) in self.MAP:
+            self.n += 1
+            return ast.UnaryOp(op=ast.Not(), operand=ast.Compare(
+                left=node.left, ops=[self.MAP[type(node.ops[0])]()],
+                comparators=node.comparators))
+        return node
+
+
+def _t_not_compare(tree, fn):
+    t = _NotCompare()
+    t.visit(tree)
+    ast.fix_missing_locations(tree)
+    return t.n
+
+
+def _t_attr_locals(tree, fn):
+    n = 0
+    for c in ast.walk(tree):
+        if not isinstance(c, ast.ClassDef):
+            continue
+        # attributes stored anywhere outside __init__ (on any receiver) are
+        # not stable
+        unstable = set()
+        for m in c.body:
+            if isinstance(m, ast.FunctionDef) and m.name != '__init__':
+                for x in ast.walk(m):
+                    if isinstance(x, ast.Attribute) and isinstance(
+                            x.ctx, (ast.Store, ast.Del)):
+                        unstable.add(x.attr)
+        for x in ast.walk(tree):
+            if isinstance(x, ast.Attribute) and isinstance(
+                    x.ctx, (ast.Store, ast.Del)) and not any(
+                        x in list(ast.walk(m)) for m in c.body
+                        if isinstance(m, ast.FunctionDef) and
+                        m.name == '__init__'):
+                unstable.add(x.attr)
+        methods = {m.name for m in c.body if isinstance(m, ast.FunctionDef)}
+        for m in c.body:
+            if not isinstance(m, ast.FunctionDef) or m.name == '__init__' \
+                    or not m.args.args or any(
+                        isinstance(d, ast.Name) and d.id in (
+                            'staticmethod', 'classmethod', 'property')
+                        for d in m.decorator_list):
+                continue
+            self_name = m.args.args[0].arg
+            reads = {}
+            for x in ast.walk(m):
+                if isinstance(x, ast.Attribute) and isinstance(
+                        x.value, ast.Name) and x.value.id == self_name and \
+                        isinstance(x.ctx, ast.Load) and \
+                        x.attr.startswith('_') and x.attr not in unstable \
+                        and x.attr not in methods and \
+                        not x.attr.startswith('__') and \
+                        not x.attr.isupper() and 'lock' not in x.attr:
+                    reads.setdefault(x.attr, []).append(x)
+            pre = []
+            for attr, sites in sorted(reads.items()):
+                if len(sites) < 2:
+                    continue
+                nm = 'l' + attr
+                n += 1
+                pre.append(ast.Assign(
+                    targets=[ast.Name(id=nm, ctx=ast.Store())],
+                    value=ast.Attribute(value=ast.Name(
+                        id=self_name, ctx=ast.Load()), attr=attr,
+                        ctx=ast.Load()), lineno=m.lineno))
+
+                class T(ast.NodeTransformer):
+                    def visit_Attribute(self_, x, attr=attr, nm=nm):
+                        self_.generic_visit(x)
+                        if isinstance(x.value, ast.Name) and \
+                                x.value.id == self_name and \
+                                x.attr == attr and isinstance(
+                                    x.ctx, ast.Load):
+                            return ast.Name(id=nm, ctx=ast.Load())
+                        return x
+                m.body = [T().visit(b) for b in m.body]
+            if pre:
+                k = 1 if (m.body and isinstance(m.body[0], ast.Expr) and
+                          isinstance(m.body[0].value, ast.Constant)) else 0
+                m.body = m.body[:k] + pre + m.body[k:]
+    ast.fix_missing_locations(tree)
+    return n
+
+
+def _comp_to_loop(stmts, counter):
+    out = []
+    for st in stmts:
+        for fld in ('body', 'orelse', 'finalbody'):
+            if isinstance(getattr(st, fld, None), list):
+                setattr(st, fld, _comp_to_loop(getattr(st, fld), counter))
+        for h in getattr(st, 'handlers', []) or []:
+            h.body = _comp_to_loop(h.body, counter)
+        if isinstance(st, ast.Assign) and len(st.targets) == 1 and \
+                isinstance(st.targets[0], ast.Name) and isinstance(
+                    st.value, ast.ListComp) and len(
+                        st.value.generators) == 1 and not any(
+                            isinstance(x, ast.Name) and
+                            x.id == st.targets[0].id
+                            for x in ast.walk(st.value)):
+            counter[0] += 1
+            g = st.value.generators[0]
+            nm = st.targets[0].id
+            body = [ast.Expr(value=ast.Call(func=ast.Attribute(
+                value=ast.Name(id=nm, ctx=ast.Load()), attr='append',
+                ctx=ast.Load()), args=[st.value.elt], keywords=[]))]
+            for c in reversed(g.ifs):
+                body = [ast.If(test=c, body=body, orelse=[])]
+            out.append(ast.Assign(targets=[ast.Name(id=nm, ctx=ast.Store())],
+                                  value=ast.List(elts=[], ctx=ast.Load()),
+                                  lineno=st.lineno))
+            out.append(ast.For(target=g.target, iter=g.iter, body=body,
+                               orelse=[], lineno=st.lineno))
+        else:
+            out.append(st)
+    return out
+
+
+def _t_comprehension_to_loop(tree, fn):
+    counter = [0]
+    for f in ast.walk(tree):
+        if isinstance(f, ast.FunctionDef):
+            f.body = _comp_to_loop(f.body, counter)
+    ast.fix_missing_locations(tree)
+    return counter[0]
